@@ -335,7 +335,12 @@ func C13(r *report.Report, tier string) {
 	for _, s := range shapes {
 		jobs = append(jobs, s)
 	}
-	par.Map("c13", jobs, par.Options{}, func(i int, res *par.Result) {
+	par.Map("c13", jobs, par.Options{Deadline: Deadline}, func(i int, res *par.Result) {
+		if res.Skipped {
+			r.Exhaustive = false
+			r.Add("jobs_not_run_time_budget", 1)
+			return
+		}
 		if res.Crashed || res.Err != "" {
 			r.Violate(report.Violation{Sig: "worker-died|" + shapes[i].Name, Detail: res.Err + tail(res.Stderr, 2000), Replay: map[string]interface{}{"job": "c13", "arg": shapes[i]}})
 			return
